@@ -61,6 +61,12 @@ type bspec struct {
 type scenario struct {
 	Name   string
 	Blocks []bspec
+	// Guard: the compressed DPoS regime of C30 (VoteStartHeight 2, CRCOnlyDPOSHeight 3,
+	// RevertToPOWStartHeight 7), in which the node records a last irreversible height L and the
+	// reorganisation guard is live; Pre = number of leading blocks delivered in order before the
+	// search starts.
+	Guard bool
+	Pre   int
 }
 
 func T(label, parent string, txs ...string) bspec {
@@ -71,6 +77,13 @@ func scenarios(tier string) []scenario {
 	trunk4 := []bspec{T("T1", "g"), T("T2", "T1", "tg"), T("T3", "T2", "u1"), T("T4", "T3")}
 	bad := func(b bspec, kind string) bspec { b.Invalid = kind; return b }
 	badcb := func(b bspec) bspec { b.Delta = 1; b.Invalid = "coinbase-amount"; return b }
+	// live guard (C30's regime): trunk of 9 delivered up front (L=3), then a heavier fork rooted
+	// at height 4 (6 blocks, detaches 5: above L and shallower than the depth rule, so the node
+	// must switch) and a second one rooted at 3 = L (7 blocks: the exception applies, either
+	// answer is accepted), delivered in every order
+	guardLive := scenario{Name: "guard-live", Guard: true, Pre: 9, Blocks: []bspec{
+		T("T1", "g"), T("T2", "T1"), T("T3", "T2"), T("T4", "T3"), T("T5", "T4"), T("T6", "T5"), T("T7", "T6"), T("T8", "T7"), T("T9", "T8"),
+		T("F5", "T4"), T("F6", "F5"), T("F7", "F6"), T("F8", "F7"), T("F9", "F8"), T("F10", "F9")}}
 	trunk3 := []bspec{T("T1", "g"), T("T2", "T1", "tg"), T("T3", "T2", "u1")}
 	q := []scenario{
 		{"valid-heavier-fork", append(append([]bspec{}, trunk3...),
@@ -85,8 +98,9 @@ func scenarios(tier string) []scenario {
 			T("B3", "T2", "u2"), T("C2", "T1"), T("C3", "C2", "tg"))},
 		// two branches overtaking each other in turn: delivered A2, B2 B3, A3 A4 the node
 		// switches A -> B -> A (the second reorganisation re-attaches blocks it detached before)
-		{"there-and-back", []bspec{T("T1", "g"), T("A2", "T1", "tg"), T("B2", "T1", "tg2"), T("B3", "B2"),
+		{Name: "there-and-back", Blocks: []bspec{T("T1", "g"), T("A2", "T1", "tg"), T("B2", "T1", "tg2"), T("B3", "B2"),
 			T("A3", "A2", "u1"), T("A4", "A3")}},
+		guardLive,
 	}
 	if tier != "thorough" {
 		return q
@@ -107,6 +121,10 @@ func scenarios(tier string) []scenario {
 			T("A3", "T2", "u2"), bad(T("A4", "A3", "tg2"), "double-spend"), T("A5", "A4"), T("B4", "T3"), T("A6", "A5"))},
 		{"there-and-back+", []bspec{T("T1", "g"), T("T2", "T1", "tg"), T("A3", "T2", "u1"), T("B3", "T2", "u2"), T("B4", "B3"),
 			T("A4", "A3"), T("A5", "A4"), T("B5", "B4"), T("B6", "B5"), T("C3", "T2")}},
+		guardLive,
+		{Name: "guard-live-at-L", Guard: true, Pre: 9, Blocks: []bspec{
+			T("T1", "g"), T("T2", "T1"), T("T3", "T2"), T("T4", "T3"), T("T5", "T4"), T("T6", "T5"), T("T7", "T6"), T("T8", "T7"), T("T9", "T8"),
+			T("E4", "T3"), T("E5", "E4"), T("E6", "E5"), T("E7", "E6"), T("E8", "E7"), T("E9", "E8"), T("E10", "E9"), T("G9", "T8"), T("G10", "G9")}},
 		{"invalid-pos1-coinbase", append(append([]bspec{}, trunk4...),
 			badcb(T("A3", "T2")), T("A4", "A3"), T("A5", "A4"), T("B4", "T3"), T("C3", "T2"))},
 	}
@@ -272,8 +290,16 @@ var refSnaps = map[string]map[string]string{}
 
 // CheckRewardHeight 0: below that height blockchain.checkTxsContext deliberately ignores a wrong
 // coinbase amount (legacy blocks); the scenarios with a coinbase-amount deviation need the rule on.
-func cfg() chainkit.Config {
-	return chainkit.Config{CoinbaseMaturity: 1, Tweak: func(p *config.Configuration) { p.CheckRewardHeight = 0 }}
+func cfg(sc *scenario) chainkit.Config {
+	guard := sc != nil && sc.Guard
+	return chainkit.Config{CoinbaseMaturity: 1, Tweak: func(p *config.Configuration) {
+		p.CheckRewardHeight = 0
+		if guard {
+			p.VoteStartHeight = 2
+			p.CRCOnlyDPOSHeight = 3
+			p.DPoSConfiguration.RevertToPOWStartHeight = 7
+		}
+	}}
 }
 
 // Workers take the reference snapshots from the file the parent wrote (C12_REFS) instead of
@@ -296,7 +322,7 @@ func ensureRefs(sc *scenario) map[string]string {
 	}
 	refs := map[string]string{}
 	// tree first (needs a node for the factory)
-	n, err := chainkit.NewNode(cfg())
+	n, err := chainkit.NewNode(cfg(sc))
 	if err != nil {
 		evid.Fatalf("C12: %v", err)
 	}
@@ -308,7 +334,7 @@ func ensureRefs(sc *scenario) map[string]string {
 		if tb.tainted {
 			continue
 		}
-		n, err := chainkit.NewNode(cfg())
+		n, err := chainkit.NewNode(cfg(sc))
 		if err != nil {
 			evid.Fatalf("C12: %v", err)
 		}
@@ -326,7 +352,7 @@ func ensureRefs(sc *scenario) map[string]string {
 		if tb.spec.Invalid == "" || (tb.parent != nil && tb.parent.tainted) {
 			continue
 		}
-		n, err := chainkit.NewNode(cfg())
+		n, err := chainkit.NewNode(cfg(sc))
 		if err != nil {
 			evid.Fatalf("C12: %v", err)
 		}
@@ -367,11 +393,19 @@ func newSystem(name string) chainkit.System {
 		evid.Fatalf("C12: unknown scenario %s", name)
 	}
 	refs := ensureRefs(sc)
-	n, err := chainkit.NewNode(cfg())
+	n, err := chainkit.NewNode(cfg(sc))
 	if err != nil {
 		evid.Fatalf("C12: %v", err)
 	}
-	return &system{sc: sc, t: buildTree(n, sc), refs: refs, n: n, delivered: make([]bool, len(sc.Blocks)), c: map[string]int{}}
+	s := &system{sc: sc, t: buildTree(n, sc), refs: refs, n: n, delivered: make([]bool, len(sc.Blocks)), c: map[string]int{}}
+	for i := 0; i < sc.Pre; i++ {
+		in, orphan, err := n.ProcessBlock(s.t.blocks[i].blk)
+		if err != nil || !in || orphan {
+			evid.Fatalf("C12: scenario %s: prefix block %s: in=%v orphan=%v err=%v", sc.Name, s.t.blocks[i].spec.Label, in, orphan, err)
+		}
+		s.delivered[i] = true
+	}
+	return s
 }
 
 func (s *system) Close()                   { s.n.Close() }
